@@ -63,6 +63,13 @@ func wholeSemanticCases() []semCase {
 			"S", gSeq(gC("a"), gPredS("__pred0()"), &gexpr{Op: "state", S: "__st0()"}, gAlt(gC("b"), gNil()), gC("c"))),
 		sc("case-insensitive letters at the start of alternatives next to plain literals",
 			"S", gSeq(gAlt(gSeq(gD("k"), gC("g")), gSeq(gC("m"), gD("x")), gSeq(gRange("0", "9"), gC("y")), gSeq(gC("z"), gD("w"))), eof())),
+		sc("order of a choice with overlapping prefixes; possessive repetition in front of what it swallowed",
+			"S", gSeq(gAlt(gC("a"), gLit("ab"), gC("b")), gC("c"), gQ(gC("d")), gC("d"), gAlt(gSeq(gStar(gC("e")), gC("e")), gC("f")), eof())),
+		sc("lookaheads of lookaheads, a negated class as the builder makes it, empty literals inside a sequence",
+			"S", gSeq(gNot(gNot(gC("a"))), gAnd(gNot(gC("b"))), gSeq(gNot(gRange("x", "z")), gDot()), gNil(), gQ(gSeq(gNil(), gC("q"))), gC("r"), eof())),
+		sc("repetition of a choice, a repetition followed by its own operand, an optional rule call in front of a literal it can start with",
+			"S", gSeq(gPlus(gAlt(gLit("ab"), gC("a"))), gN("T"), gQ(gN("T")), gLit("ac"), eof()),
+			"T", gSeq(gC("a"), gC("c"))),
 		sc("recursion through a parenthesised expression",
 			"E", gSeq(gN("T"), gStar(gSeq(gC("+"), gN("T")))),
 			"T", gAlt(gSeq(gC("("), gN("E"), gC(")")), gPlus(gRange("0", "9")))),
@@ -271,7 +278,7 @@ func wholeSemantics(c *Check, r *Repo, rule string, opts modelOpts) {
 	default:
 		c.OK(rule, construct, "", fmt.Sprintf("%d rule functions of %d grammars (keywords, nested choices and sequences, classes, rule calls, lookaheads, captures and actions, predicates, recursion) built through the builder API and taken through all of Compile: outcome sets (verdict, position, tokens, events) equal the oracle's for the grammar as written (%d rule functions of random grammars not examined: too many paths)", n-skipped, len(cases), skipped))
 	}
-	c.Floor(rule, n, 13)
+	c.Floor(rule, n, 17)
 }
 
 // randomSemCases: seeded random well-formed grammars over concrete leaves —
